@@ -29,6 +29,8 @@ def frac_lemmas(facts):
         out.append(fn == z3.If(fu == 0, z3.RealVal(0), 1 - fu))
         out.append(z3.Implies(u >= 0, fu <= u))
         out.append(z3.Implies(nu >= 0, fn <= nu))
+        out.append(z3.Implies(z3.And(u >= 0, u < 1), fu == u))
+        out.append(z3.Implies(z3.And(nu >= 0, nu < 1), fn == nu))
     # pairwise: if u - v is (provably) an integer the fractions agree  --  stated as an implication
     for i, u in enumerate(terms):
         for v in terms[i + 1:]:
